@@ -460,6 +460,106 @@ def rule_protoscope(chk, prog, tier):
     r.exhaustive = False
 
 
+# ------------------------------------------------------------------ C16.g the block of a function body
+
+def rule_bodyscope(chk, prog, tier):
+    r = chk.rule('C16.g', 'the outermost block of a function body is the block its parameters are declared in: the body parser enters the declarations of that block into the scope the declarator handed back (so a parameter cannot be '
+                 'silently hidden by a declaration of the same block), every nested compound statement opens one scope whose parent is the enclosing one and closes it at its brace',
+                 floor=6, oracle='C11 6.2.1p4, 6.9.1p9')
+    from cfg import callee_name
+    dfn = prog.require_func('decl', 'decl.c')
+    # the callee decl() uses for the body: the call that follows `mkfunc` in the function-definition branch and is defined in stmt.c
+    body_fn = None
+    def scan(n):
+        nonlocal body_fn
+        if n.get('kind') == 'CompoundStmt':
+            ch = children(n); seen_mk = False
+            for c in ch:
+                calls = [m for m in walk(c) if m.get('kind') == 'CallExpr']
+                names = [callee_name(m) for m in calls]
+                if 'mkfunc' in names: seen_mk = True; continue
+                if seen_mk and body_fn is None:
+                    for nm in names:
+                        f = prog.func(nm)
+                        if f is not None and f.get('_file') == 'stmt.c': body_fn = f; break
+        for c in children(n): scan(c)
+    scan(dfn)
+    if body_fn is None:
+        raise AnalysisBroken('decl(): no call into stmt.c after mkfunc (function body parser not found)')
+    SHAPES = ['{ D }', '{ D D }', '{ D { D } D }', '{ { D { D } } D }', '{ }', '{ { } D }', '{ S D }', '{ D S { S D } }']
+    for shape in SHAPES:
+        def runner(it):
+            toks = [{'{': 'TLBRACE', '}': 'TRBRACE', 'D': 'D', 'S': 'TSEMICOLON'}[x] for x in shape.split()] + ['TEOF']
+            tokobj = it.gobj('tok'); st = {'i': 0, 'n': 0}
+            def load():
+                k = toks[min(st['i'], len(toks) - 1)]
+                tokobj.f[('kind',)] = ev(prog, 'TINT' if k == 'D' else k); tokobj.f[('lit',)] = None
+                tokobj.f[('loc', 'file')] = None; tokobj.f[('loc', 'line')] = 1; tokobj.f[('loc', 'col')] = 1
+            def nxt(i2, a, e): st['i'] += 1; load(); return None
+            def expect(i2, a, e):
+                if tokobj.f[('kind',)] != a[0]: raise Terminal('error', 'expected token')
+                nxt(i2, a, e); return None
+            def consume(i2, a, e):
+                if tokobj.f[('kind',)] == a[0] and toks[min(st['i'], len(toks) - 1)] != 'D': nxt(i2, a, e); return 1
+                return 0
+            def decl(i2, a, e):
+                if toks[min(st['i'], len(toks) - 1)] != 'D': return 0
+                i2.event('decl', a[0].obj.id); nxt(i2, a, e); return 1
+            def mkscope(i2, a, e):
+                st['n'] += 1
+                o = Obj('scope%d' % st['n'], 'heap'); o.f[('parent',)] = a[0]; o.f[('switchcases',)] = None
+                i2.event('open', o.id, a[0].obj.id); return Ptr(o, ())
+            def delscope(i2, a, e):
+                i2.event('close', a[0].obj.id); return a[0].obj.f[('parent',)]
+            it.models.update({'next': nxt, 'expect': expect, 'consume': consume, 'decl': decl, 'mkscope': mkscope, 'delscope': delscope, 'attr': lambda i2, a, e: 0,
+                              'peek': lambda i2, a, e: 0,
+                              'error': lambda i2, a, e: (_ for _ in ()).throw(Terminal('error', cmodel.fmt_of(i2, a, 1))),
+                              'fatal': lambda i2, a, e: (_ for _ in ()).throw(Terminal('fatal', cmodel.fmt_of(i2, a, 0)))})
+            load()
+            ps = Obj('paramscope', 'heap'); ps.f[('parent',)] = Ptr(Obj('filescope', 'heap'), ()); ps.f[('switchcases',)] = None
+            it.call(body_fn, [Ptr(Obj('func', 'heap'), ()), Ptr(ps, ())])
+            return ps.id, [e_ for e_ in it.events if e_[0] in ('decl', 'open', 'close')], toks[min(st['i'], len(toks) - 1)]
+        runs = explore(prog, runner, {}, max_runs=4, on_unsupported='keep')
+        key = 'body:%s' % shape
+        where = 'stmt.c:%s' % body_fn.get('name')
+        if len(runs) != 1 or runs[0].outcome != 'return':
+            raise AnalysisBroken('%s: %s' % (key, [(x.outcome, x.detail) for x in runs][:2]))
+        psid, evs, rest = runs[0].value
+        # reference: a stack of scopes; the outermost braces belong to the parameter scope
+        stack = [psid]; want = []; depth = 0; fresh = iter(range(10 ** 6)); names = {psid: 'params'}
+        got = []; gstack = [psid]; ok = True; gi = 0
+        seq = shape.split()
+        evi = iter(evs)
+        problems = []
+        cur = [psid]
+        def nextev():
+            try: return next(evi)
+            except StopIteration: return None
+        for k, tk in enumerate(seq):
+            if tk == '{':
+                depth += 1
+                if depth > 1:
+                    e_ = nextev()
+                    if not e_ or e_[0] != 'open' or e_[2] != cur[-1]: problems.append('token %d: expected a new scope inside %s, got %s' % (k, names.get(cur[-1], cur[-1]), e_)); break
+                    names[e_[1]] = 'block@%d' % k; cur.append(e_[1])
+            elif tk == '}':
+                depth -= 1
+                if depth >= 1:
+                    e_ = nextev()
+                    if not e_ or e_[0] != 'close' or e_[1] != cur[-1]: problems.append('token %d: expected %s to be closed, got %s' % (k, names.get(cur[-1]), e_)); break
+                    cur.pop()
+            elif tk == 'D':
+                e_ = nextev()
+                if not e_ or e_[0] != 'decl' or e_[1] != cur[-1]:
+                    problems.append('token %d: declaration entered into %s, expected %s' % (k, names.get(e_[1], 'a scope of its own') if e_ and e_[0] == 'decl' else e_, names.get(cur[-1]))); break
+        if not problems:
+            e_ = nextev()
+            if e_ is not None: problems.append('extra scope event %s' % (e_,))
+            if rest != 'TEOF': problems.append('body not consumed up to its closing brace (next token %s)' % rest)
+        r.instance(not problems, key, where, '; '.join(problems) or 'declarations entered into the expected scopes')
+    r.exhaustive = False
+
+
 def run(chk, tier):
     prog = facts.programs()['cproc-qbe']
     chk.guard('C16.a', lambda: rule_map(chk, prog, tier))
@@ -468,3 +568,4 @@ def run(chk, tier):
     chk.guard('C16.d', lambda: rule_namespaces(chk, prog, tier))
     chk.guard('C16.e', lambda: rule_tagshadow(chk, prog, tier))
     chk.guard('C16.f', lambda: rule_protoscope(chk, prog, tier))
+    chk.guard('C16.g', lambda: rule_bodyscope(chk, prog, tier))
